@@ -995,6 +995,20 @@ pub fn scale_programs(max: usize) -> Vec<(Vec<Sx>, String)> {
             out.push((vec![e, c, o, format!("(define f {})", cl), calls], format!("scale nesting-depth n={}", n)));
         }
     }
+    // a captured variable assigned a value that looks like the one it holds (other exactness, other
+    // sign of zero, a sibling closure, an equal list): every later lookup sees the new one
+    let cell = "(define (make-cell v) (lambda (new) (set! v new) v))";
+    for (init, news) in [("1", vec!["1.0", "1", "-1"]), ("0.0", vec!["-0.0", "0", "0.0"]), ("1/2", vec!["0.5", "2/4"]), ("'(1 2)", vec!["(list 1 2)", "'(1 2.0)"]), ("(lambda () 1)", vec!["(lambda () 1)"])] {
+        let mut forms = vec![cell.to_string(), format!("(define c (make-cell {}))", init)];
+        for n in &news {
+            forms.push(if init.starts_with("(lambda") { format!("((c {}))", n) } else { format!("(c {})", n) });
+        }
+        out.push((forms, format!("scale look-alike-assignment init={}", init)));
+    }
+    out.push((
+        vec!["(define (adder k) (lambda (x) (- x (- 0 k))))".into(), "(define (holder f) (lambda (g x) (set! f g) (f x)))".into(), "(define h (holder (adder 1)))".into(), "(h (adder 1) 10)".into(), "(h (adder 2) 10)".into(), "(h (adder 1) 10)".into()],
+        "scale look-alike-assignment sibling-closures".into(),
+    ));
     out.into_iter().map(|(p, tag)| (p.iter().map(|t| crate::sexp::parse1(t)).collect(), tag)).collect()
 }
 
